@@ -34,6 +34,8 @@ KERNELS = {
     "C14": ["k_is_true", "k_and_or", "k_binop_short_circuit", "k_not"],
     "C16": ["k_set_variable"],
     "C17": ["k_for_bounds", "k_if_dispatch"],
+    "C36": ["k_comment_dispatch"],
+    "C21": ["k_error_and_drop"],
     "C26": ["k_str_slice", "k_str_insert", "k_str_index_length"],
     "C28": ["k_index_of", "k_set_nth", "k_append_join", "k_list_separator"],
     "C31": ["k_deg_mod"],
@@ -272,6 +274,16 @@ STRUCTURAL_PROBES = {
              ("a { $y: 1; @if true { $y: 2; } c: $y; }", "c: 2")],
         "an unflagged assignment updates the innermost enclosing scope": [("a { $y: 1; b { $y: 2; } c: $y; }", "c: 2")],
     },
+    "k_comment_dispatch": {
+        "": [("/* a #{1 + 1} */ x { y: z }", "/* a 2 */"), ("x { /* in */ y: z }", "/* in */"), ("[compressed]/* gone */ x { y: z }", "x{y:z}"),
+             ("// silent\nx { y: z }", "x { y: z; }")],
+        "a dropped comment is not a `/*!` comment": [("[compressed]/*! keep */ x { y: z }", "/*! keep */")],
+    },
+    "k_error_and_drop": {
+        "": [("a { @error \"boom\"; }", "<error>"), ("@function f() { @error \"in f\"; @return 1 } a { b: f() }", "<error>"),
+             ("@mixin m { @error \"in m\" } a { @include m }", "<error>"), ("a { @media x { b: c } }", "@media x { a { b: c; } }")],
+        "a failing commit makes the compilation fail": [("a { font: { @media x { family: serif } size: 1px } }", "<error>")],
+    },
     "k_and_or": [("inspect(() or 1)", "()"), ("null or 1", "1"), ("0 and 1", "1"), ("false and 1", "false"), ("\"\" or 2", "\"\""), ("inspect((null,) or 3)", "(null,)")],
     "k_binop_short_circuit": [("false and $undefined-variable", "false"), ("true or $undefined-variable", "true")],
     "k_is_true": [("if((), 1, 2)", "1"), ("if(unquote(\"\"), 1, 2)", "1"), ("if(0, 1, 2)", "1"), ("if(null, 1, 2)", "2")],
@@ -297,7 +309,9 @@ def structural_probe(kernel, label=""):
     diffs = []
     for src, want in probes:
         if "{" in src:  # a whole stylesheet: the expected text must occur in the output
-            outs = [native.run_scss(src, prof) for prof in ("dev", "release")]
+            comp = src.startswith("[compressed]")
+            doc = src[len("[compressed]"):] if comp else src
+            outs = [native.run_scss(doc, prof, comp) for prof in ("dev", "release")]
             vals = [(" ".join(r["message"].split()) if r["outcome"] == "ok" else "<%s>" % r["outcome"]) for r in outs]
             if any(want not in v for v in vals):
                 diffs.append({"scss": src, "want": want, "got": vals})
